@@ -37,3 +37,4 @@ import L21.Props.NumConsts
 #print axioms L21.Lef.c04_genvia_any_order
 #print axioms L21.Lef.c04_text_any_order
 #print axioms L21.Lef.c04_text_reads_back
+#print axioms L21.Lef.wMacroToks_is_rendering
